@@ -204,4 +204,19 @@ Definition contact_force (pyramidal : bool) (efc_force : list T) (adr : Z) (fr :
   | [] => []
   end.
 
+(* ---- dual solvers (engine_solver.c), per-row projections next to the force law.
+   mju_clip(x, min, max) = x < min ? min : (x > max ? max : x) *)
+Definition mju_clip (x lo hi : T) : T := if x <? lo then lo else if hi <? x then hi else x.
+
+(* solNoSlip / solPGS, dry-friction row i: force[i] -= res*ARinv; then the interval constraint
+   if (force[i] < -floss[i]) force[i] = -floss[i]; else if (force[i] > floss[i]) force[i] = floss[i];
+   (bound and force of the SAME efc row i) *)
+Definition noslip_fric_update (force res arinv fl : T) : T :=
+  let f := force - res*arinv in
+  if f <? -fl then -fl else if fl <? f then fl else f.
+
+(* solNoSlip, one pair of opposing pyramid edges: mid = 0.5*(f0+f1); unconstrained y; clamp y to [-mid, mid] *)
+Definition noslip_pyr_pair (mid y : T) : T * T :=
+  if y <? -mid then (nzero, ntwo*mid) else if mid <? y then (ntwo*mid, nzero) else (mid + y, mid - y).
+
 End CU.
